@@ -215,6 +215,51 @@ fn run_bitbuffer(ctx: &mut RunCtx<'_>) -> Option<Violation> {
                 if m.bits.is_empty() {
                     continue;
                 }
+                if l.draw(2) == 1 {
+                    // overwrite a RANGE of already written bits with the cursor moved back: the range may end
+                    // exactly at the end of the buffer (the growth check runs although nothing may grow), never
+                    // beyond what is written (the cursor is restored afterwards, so that is outside the contract)
+                    let total = m.bits.len();
+                    let p = l.draw(total as u64) as usize;
+                    let room = total - p;
+                    let n = match l.draw(3) {
+                        0 => room,
+                        1 => 1 + l.draw(room.min(16) as u64) as usize,
+                        _ => 1 + l.draw(room as u64) as usize,
+                    };
+                    let off = if l.draw(3) == 0 { 0 } else { l.draw(8) as usize };
+                    let fill = l.draw(3);
+                    let src: Vec<u8> = (0..(off + n + 7) / 8).map(|i| match fill { 0 => 0xff, 1 => 0x5au8.rotate_left(i as u32 % 8), _ => l.draw(256) as u8 }).collect();
+                    let how = l.draw(3);
+                    let whole = off == 0 && n % 8 == 0;
+                    let r = guard(|| {
+                        b.with_write_position_at(p, |b| match how {
+                            0 if whole => b.write_bits(&src),
+                            1 if off == 0 => b.write_bits_with_len(&src, n),
+                            _ => b.write_bits_with_offset_len(&src, off, n),
+                        })
+                    });
+                    let cls = class(off, p, n);
+                    ctx.log.ev("B", "with_write_position_at-range", (p * 4099 + n * 8 + off) as u64, || format!("pos={p} len={n} of {total} src={} off={off} how={how}", hex(&src)));
+                    ctx.counters.inc(if p + n == total { "probe.overwrite_range_ends_at_buffer_end" } else { "probe.overwrite_range_inside" });
+                    match r {
+                        Ok(Ok(())) => {
+                            for i in 0..n {
+                                m.bits[p + i] = bit(&src, off + i);
+                            }
+                            ok_ops += 1;
+                        }
+                        Ok(Err(e)) => return Viol::new("C11/unexpected-error/bitbuffer/with_write_position_at-range", format!("overwriting bits {p}..{} of {total} written bits failed ({cls}): {:?}", p + n, e.kind())),
+                        Err(pi) => return Viol::new(format!("C11/panic/bitbuffer/with_write_position_at-range/{}", pi.sig()), pi.message),
+                    }
+                    if let Some(v) = bb_equals_model(&b, &m, "with_write_position_at-range", &cls) {
+                        return Some(v);
+                    }
+                    if let Some(v) = bb_invariant(&b, "with_write_position_at-range") {
+                        return Some(v);
+                    }
+                    continue;
+                }
                 // patch one bit at an already written position (what the UPER writer does)
                 let p = l.draw(m.bits.len() as u64) as usize;
                 let v = l.draw(2) == 1;
